@@ -132,6 +132,12 @@ def neg_variants(w):
 NEG_ERRNOS = [1, 2, 3, 4, 5, 9, 11, 12, 13, 14, 16, 17, 22, 32, 38, 110, 512, 4095]
 
 
+def nomodel(w):
+    """no skeleton to run the model on: the translator cannot follow the body (opaque), or follows it and it is not one of the
+    property's shapes (suspect: additionally a broken obligation)"""
+    return w["opaque"] or w["suspect"]
+
+
 def seq_cases(ctx, w, vars_):
     r = ctx.rng
     seq = []
@@ -150,7 +156,7 @@ def gen_cases(ctx, meta, errnos):
     r = ctx.rng
     call, seq = [], []
     for w in X.callable_wrappers(meta):
-        if w["opaque"]:
+        if nomodel(w):
             continue
         for var in variants(w):
             for e in errnos:
@@ -178,7 +184,7 @@ def gen_opaque_cases(ctx, meta, errnos):
     r = ctx.rng
     cases = []
     for w in X.callable_wrappers(meta):
-        if not w["opaque"]:
+        if not nomodel(w):
             continue
         allv = variants(w) + mode_variants(w, [1, 2, 3])
         extra = [max(0, (1 << k) + d) for k in range(1, 64) for d in (-1, 0, 1)] + [r.below(M64 - 4096) for _ in range(64 if ctx.tier == "quick" else 400)]
@@ -285,7 +291,8 @@ def observe_idioms(ctx, exe, meta):
     if observed:
         done = {"resv": "is_syscall_error", "bailCode": "bail_on_below_zero!", "coerceCode": "coerce_from_register"}
         solved = [done[k] for k in done if k in meta["unknown"] and k not in unknown]
-        meta["observed"] = ["%s [not understood statically: %s]" % (o, "; ".join(p for p in meta["problems"] if any(p.startswith(s) for s in solved)))
+        field_of = {"resv": "is_syscall_error", "bailCode": "bail_on_below_zero!", "coerceCode/coerceOk": "coerce_from_register"}
+        meta["observed"] = ["%s [not understood statically: %s]" % (o, "; ".join(p for p in meta["problems"] if p.startswith(field_of[o.split(":")[0]])))
                             for o in observed]
         meta["problems"] = [p for p in meta["problems"] if not any(p.startswith(s) for s in solved)]
         meta["unknown"] = unknown
@@ -314,7 +321,7 @@ def run(ctx):
     callable_ = X.callable_wrappers(meta)
     kinds = {}
     for w in meta["wrappers"]:
-        k = "opaque" if w["opaque"] else w["skel"].strip("()").split()[0]
+        k = "opaque" if w["opaque"] else "suspect" if w["suspect"] else w["skel"].strip("()").split()[0]
         kinds[k] = kinds.get(k, 0) + 1
     ctx.extra["wrappers_in_table"] = len(meta["wrappers"])
     ctx.extra["wrappers_called"] = len(callable_)
@@ -348,6 +355,7 @@ def run(ctx):
         ctx.assumptions.append("decode idioms not understood statically; their model parameters are what the compiled code does: " + " | ".join(observed))
     untranslated = [{"wrapper": w["name"], "file": w["file"], "skeleton": w["skel"]} for w in meta["wrappers"]
                     if w["skel"].startswith(".custom") and not w["opaque"]]
+    ctx.extra["wrappers_not_of_the_propertys_shape"] = [{"wrapper": w["name"], "file": w["file"], "why": w["suspect"]} for w in meta["wrappers"] if w["suspect"]]
     untranslated += [{"idiom": p} for p in meta["problems"]]
     if untranslated:
         ctx.broken.append({"untranslated": untranslated})
@@ -388,7 +396,7 @@ def run(ctx):
         r = reg(w[3])
         kind = o.split()[0]
         ctx.count((w[1], value_class(r), kind))
-        sk = "opaque" if META[w[1]]["opaque"] else META[w[1]]["skel"].strip("()").split()[0]
+        sk = "no-model" if nomodel(META[w[1]]) else META[w[1]]["skel"].strip("()").split()[0]
         ctx.hist("outcomes_by_skeleton_kind", sk + ":" + value_class(r) + ":" + kind)
         ctx.hist("calls_issued", o.split()[-1])
     lossy = sorted({"%s <- %s" % (c.split()[1], c.split()[3]) for c, o in zip(call, outs)
